@@ -17,6 +17,10 @@ CHECKS = {
    tech="TLA+ spec Metrics.tla: TLC exhaustive model check (all tag iteration orders) + TLC trace validation of executions recorded from the real Collector / PerformanceMonitor, incl. concurrent bursts",
    text="TLC explores every sequence (<= 5/6 steps) of get-or-create with every iteration order of the tag map, increments and observations, checking one series per identity, histogram consistency and percentile monotonicity; executions of the real collector (gets repeated with freshly built maps, counters, histograms, the monitor's record calls and report totals, concurrent bursts) are validated by TLC against the same registry/accounting model.",
    note="No graph walk for this component (recorder only); trusted: TLC, Go driver; race detector used in the thorough tier."),
+ "C15": dict(cat="model_checking", ref="DESIGN.md section 5, C15",
+   tech="TLA+ spec Loader.tla: TLC exhaustive model check of the retry/fallback protocol over all fault x configuration combinations; TLC-enumerated scenarios executed by the real LoadDatabaseWithFallback (unprivileged child, hooked attempts/waits); TLC trace validation",
+   text="TLC enumerates every combination of main/personal file fault and retry configuration (5,832 scenarios) and checks, over all behaviours of the retry protocol, that loading ends usable, real iff the files load, with one attempt for missing/permission faults, attempts within budget and waits monotone and capped; every enumerated scenario (a stratified sample in the quick tier) plus random off-grid configurations is materialised on disk and run through the real loader, and the recorded attempt/delay/return events are validated by TLC against the same protocol.",
+   note="Needs the recovery observer hook (build tag verif) and the ability to drop to uid 65534 for permission faults; trusted: TLC, Go driver."),
 }
 NOT_APPLICABLE = {}
 
